@@ -9,6 +9,8 @@ import pipeline
 import sr
 
 ASSUME = [
+    "selections none_ok / badver_ok / m1_ok: after a refusal (or a wrong version) two more bytes arrive that look like a selection of "
+    "'no authentication': the server's selection stands, no request is sent",
     "some CONNECT vectors are made while another connection to a different port of the same host, or a look-up of that host, is "
     "started before the proxy has answered ours: our request is unaffected",
     "TLC decides every recorded vector with the SocksReq grammar and proves the grammar's encoder/parser agree over a boundary grid; "
@@ -93,7 +95,7 @@ def vectors(tier, seed):
         vs.append(("RESOLVE_PTR", "v6", a, 0))
         vs.append(("RESOLVE", "v6", a, 0))
     # the server's method selection: mostly 'no authentication' in one segment; every 4th vector another reply
-    sels = ["split", "m2", "m2split", "none", "badver", "m1", "split", "sync", "sync", "coalesced", "coalesced"]
+    sels = ["split", "m2", "m2split", "none", "badver", "m1", "split", "sync", "sync", "coalesced", "coalesced", "none_ok", "badver_ok", "m1_ok"]
     vs = [v + (("ok",) if i % 4 else (sels[(i // 4) % len(sels)],)) for i, v in enumerate(vs)]
     vs += tlsvs
     # overlapping use of one host: while our request waits for the proxy's method selection, a connection to another port
